@@ -590,7 +590,10 @@ class Interp(ExprMixin, BuiltinMixin, MethodMixin):
         if init is not None:
             self.call(init, [o] + args, kwargs)
         elif cls.native_base == "list":
-            o.items = self.iterate(args[0]) if args else []
+            if args and isinstance(args[0], LogList):
+                o.items = args[0].clone()
+            else:
+                o.items = self.iterate(args[0]) if args else []
         elif args or kwargs:
             self.raise_builtin("TypeError", "%s() takes no arguments" % cls.name)
         post, _ = cls.lookup("__post_init__")
